@@ -158,7 +158,8 @@ def verify (pol : Policy) (access bucket object act : Bytes) : Bool :=
 
 inductive VErr where
   | invalidEffect | invalidPrincipal | invalidResource | resourceMismatch | invalidAction
-  | invalidJson | emptyStatement | missingStatement | panic
+  | invalidJson | emptyStatement | missingStatement
+  | missingPrincipal | missingAction | missingResource | panic
   deriving Repr, DecidableEq
 
 /-- `BucketPolicyAccessType.Validate` -/
@@ -218,9 +219,14 @@ def kindLoop (objRes bktRes : Bool) : List Bytes → Except VErr Unit
 /-- `BucketPolicyItem.Validate` -/
 def validateStmt (bucket : Bytes) (acct : Bytes → Bool) (st : Stmt) : Except VErr Unit := do
   effectValidate st.effect
-  principalsValidate acct st.principals
-  resourcesValidate bucket st.resources
-  kindLoop (containsObjectPattern st.resources) (containsBucketPattern st.resources) st.actions
+  -- an absent member leaves its map nil: `len(m) == 0` → "Missing required field …"
+  if st.principals.length = 0 then .error .missingPrincipal
+  else if st.actions.length = 0 then .error .missingAction
+  else if st.resources.length = 0 then .error .missingResource
+  else do
+    principalsValidate acct st.principals
+    resourcesValidate bucket st.resources
+    kindLoop (containsObjectPattern st.resources) (containsBucketPattern st.resources) st.actions
 
 /-- `BucketPolicy.Validate` -/
 def validatePolicy (bucket : Bytes) (acct : Bytes → Bool) : Policy → Except VErr Unit
